@@ -11,6 +11,8 @@ mod c04;
 mod c05;
 mod c16;
 mod c20;
+mod c11;
+mod c15;
 
 fn main() {
     std::panic::set_hook(Box::new(|_| {}));
@@ -32,6 +34,8 @@ fn main() {
         "c05" => c05::run(tier, seed, &mut out),
         "c16" => c16::run(tier, seed, &mut out),
         "c20" => c20::run(tier, seed, &mut out),
+        "c11" => c11::run(tier, seed, &mut out),
+        "c15" => c15::run(tier, seed, &mut out),
         _ => {
             eprintln!("unknown family {}", fam);
             std::process::exit(2);
